@@ -51,7 +51,7 @@ type c06Obs struct {
 	Before c06State      `json:"before"`
 	Test   eng.StepObs   `json:"test"`
 	After  *eng.StepObs  `json:"after,omitempty"`
-	Out    string        `json:"out,omitempty"` // helm template: size of the rendered output
+	Out    string        `json:"out,omitempty"`  // helm template: size of the rendered output
 	Rich   *c06RichObs   `json:"rich,omitempty"` // wide / template cases: the ordered event log for the richer model
 }
 
